@@ -1119,6 +1119,9 @@ func (pp *panicProver) proveSlice(facts []pedge, x *ssa.Slice, walkerCb bool) (s
 			return "shape", "the two operand bytes after an opcode byte that is proven to lie inside the code: present for well-formed programs (the compiler emits whole instructions; operand presence per opcode is R-EMITLEN's subject)"
 		}
 	}
+	if isByteSlice(x.X.Type()) && lo.term == hi.term && lo.term != "" && lo.off == 1 && hi.off == 3 && x.Low != nil && instructionOffset(pp.p, pp.fn, stripAddConst(x.Low)) {
+		return "shape", "the two operand bytes after the start of an instruction handed out by the bytecode walker (directly, recorded, or handed in by every caller): present for well-formed programs (R-EMITLEN)"
+	}
 	if v, why := pp.atCallSites(lo, hi, x.X, "slice"); v != "" {
 		return v, why
 	}
@@ -1285,6 +1288,10 @@ func (pp *panicProver) bytecodeShape(facts []pedge, index, base ssa.Value, walke
 			}
 		}
 	}
+	// (c') a recorded or handed-in offset read outside a visitor
+	if !walkerCb && idx.off >= 0 && idx.off <= 2 && instructionOffset(pp.p, pp.fn, stripAddConst(index)) {
+		return fmt.Sprintf("offset+%d, where the offset is the start of an instruction handed out by the bytecode walker (recorded in a field that is only ever assigned such offsets, or handed in by every caller): within the code for well-formed programs (R-EMITLEN)", idx.off)
+	}
 	if !walkerCb {
 		return ""
 	}
@@ -1436,12 +1443,36 @@ func (pp *panicProver) reportedIndex(index, base ssa.Value) string {
 // bytecode walker hands it out: the offset parameter of a walker callback, or
 // a field that is only ever assigned such an offset.
 func instructionOffset(p *Program, fn *ssa.Function, v ssa.Value) bool {
+	return instructionOffsetD(p, fn, v, 0)
+}
+
+func instructionOffsetD(p *Program, fn *ssa.Function, v ssa.Value, depth int) bool {
 	if prm, ok := v.(*ssa.Parameter); ok && isWalkerCallback(fn) && isInt(prm.Type()) {
 		for _, q := range fn.Params {
 			if isInt(q.Type()) {
 				return q == prm // the first int parameter is the offset
 			}
 		}
+	}
+	// handed in by the callers (direct calls only): such an offset at every one
+	if prm, ok := v.(*ssa.Parameter); ok && isInt(prm.Type()) && depth < 3 && fn.Parent() == nil && !functionUsedAsValue(p, fn) {
+		k := -1
+		for i, q := range fn.Params {
+			if q == prm {
+				k = i
+			}
+		}
+		sites := staticCallSites(p, fn)
+		if k < 0 || len(sites) == 0 {
+			return false
+		}
+		for _, site := range sites {
+			args := site.Common().Args
+			if k >= len(args) || site.Parent() == nil || !instructionOffsetD(p, site.Parent(), args[k], depth+1) {
+				return false
+			}
+		}
+		return true
 	}
 	if ld, ok := v.(*ssa.UnOp); ok && ld.Op == token.MUL {
 		if fa, ok := ld.X.(*ssa.FieldAddr); ok && positionField(p, fa) {
